@@ -7,6 +7,29 @@ func init() {
 
 // genC15: histories cut short by every teardown cause, optionally during a slow callback.
 func genC15(p *Plan, r *RNG) {
+	if r.Chance(1, 4) {
+		// TCP allocations: peer connections and data connections are owned resources too
+		genC16(p, r)
+		p.Flavor = "teardown:" + p.Flavor
+		cut := r.Range(2, len(p.Ops))
+		c := p.Clients[r.Intn(len(p.Clients))].ID
+		var td Op
+		switch r.Intn(4) {
+		case 0:
+			td = Op{Kind: "srv_close", At: gap(int64(r.Range(1, 2000)) * ms)}
+		case 1:
+			td = Op{Actor: c, Kind: "tcp_close", At: gap(int64(r.Range(1, 2000)) * ms)}
+		case 2:
+			td = Op{Actor: c, Kind: "refresh", At: gap(int64(r.Range(1, 2000)) * ms), A: OpArgs{Lifetime: 0}}
+		case 3:
+			p.IOFaults = append(p.IOFaults, IOFault{M: Match{Sock: "relay", Op: "Accept", Nth: r.Range(1, 4)}, Do: "error"})
+			td = Op{Kind: "wait", At: gap(ms)}
+		}
+		ops := append([]Op{}, p.Ops[:cut]...)
+		ops = append(ops, td)
+		p.Ops = append(ops, p.Ops[cut:]...)
+		return
+	}
 	genMix(p, r, "C15")
 	p.Flavor = "teardown:" + p.Flavor
 	// drop the faults genMix drew; teardown plans bring their own
@@ -62,6 +85,8 @@ func genC15(p *Plan, r *RNG) {
 func genC18(p *Plan, r *RNG) {
 	if r.Chance(1, 3) {
 		genC15(p, r)
+	} else if r.Chance(1, 4) {
+		genC16(p, r)
 	} else {
 		genMix(p, r, r.Pick([]string{"C01", "C04", "C08"}))
 	}
